@@ -45,6 +45,9 @@ type c19Params struct {
 	Declined bool `json:"declined,omitempty"`
 	// SrvReadFrom: the server application reads its data with ReadFrom (not Read)
 	SrvReadFrom bool `json:"srv_readfrom,omitempty"`
+	// PMTUC: the client's path MTU (0: default). At 100 its hellos travel as two or three fragment datagrams (the
+	// continuation fragments are named CHx#n)
+	PMTUC int `json:"pmtu_client,omitempty"`
 }
 
 func (c19) ID() string    { return "C19" }
@@ -120,6 +123,12 @@ func c19List(tier string) []c19Params {
 						out = append(out, c19Params{Suite: m.suite, Auth: m.auth, Resumed: resumed, WallAhead: true, Plan: []simnet.DFault{c19Fault(s.dir, s.name, k)}})
 					}
 					out = append(out, c19Params{Suite: m.suite, Auth: m.auth, Resumed: resumed, MinuteEdge: true, Plan: []simnet.DFault{c19Fault(s.dir, s.name, simnet.FDrop)}})
+				}
+				if !resumed && !m.auth {
+					// the client's hellos are fragmented (path MTU 100): each of their datagrams lost in turn
+					for _, name := range []string{"CH0#1", "CHx#1", "CH1#1", "CHx#2", "CHx#3"} {
+						out = append(out, c19Params{Suite: m.suite, Auth: m.auth, PMTUC: 100, Plan: []simnet.DFault{c19Fault(0, name, simnet.FDrop)}})
+					}
 				}
 				for _, s := range slots {
 					// the server application uses ReadFrom
@@ -223,6 +232,9 @@ func c19Datagram(d *simnet.Dgram) string {
 	case r0.Type == 22 && r0.Epoch == 0 && len(r0.Frag) >= 12:
 		switch r0.Frag[0] {
 		case 1:
+			if r0.Frag[6] != 0 || r0.Frag[7] != 0 || r0.Frag[8] != 0 {
+				return "CHx" // a fragment of a ClientHello that is not its first
+			}
 			// ClientHello: cookie length sits after version(2) random(32) session id
 			b := r0.Frag[12:]
 			if len(b) > 35 {
@@ -284,7 +296,7 @@ type c19Out struct {
 }
 
 func c19RunPlan(c *Case, src *vs.Src, p *c19Params, plan []simnet.DFault, r *Result, sigp string) *c19Out {
-	cc := &EPConf{Suites: []uint16{p.Suite}, ServerName: "server.test", Cache: "c"}
+	cc := &EPConf{Suites: []uint16{p.Suite}, ServerName: "server.test", Cache: "c", PMTU: p.PMTUC}
 	sc := &EPConf{Suites: []uint16{p.Suite}, Certs: []string{"server_sig", "server_enc"}, ClientCAs: []string{"ca1"}, Cache: "s"}
 	if p.Auth || IsECDHE(p.Suite) {
 		cc.Certs = []string{"client_sig", "client_enc"}
@@ -413,9 +425,12 @@ func (c19) Run(c *Case, src *vs.Src) *Result {
 	if p.Resumed && !p.Declined {
 		mode = "resumed"
 	}
+	if p.PMTUC != 0 {
+		mode += " fragmented-hello"
+	}
 	sigp := "C19 " + mode
 	res := c19RunPlan(c, src, p, p.Plan, r, sigp)
-	r.Key = hashKey(p.Suite, p.Auth, p.Resumed, p.InitMs, p.MaxMs, p.WallAhead, p.MinuteEdge, p.Declined, p.SrvReadFrom, planSig(p.Plan))
+	r.Key = hashKey(p.Suite, p.Auth, p.Resumed, p.InitMs, p.MaxMs, p.WallAhead, p.MinuteEdge, p.Declined, p.SrvReadFrom, p.PMTUC, planSig(p.Plan))
 	if res.setup != "" {
 		r.Violate("setup", sigp+" setup-failed", "%s", res.setup)
 		return r
